@@ -45,6 +45,18 @@ CHECKS.update({
             'plotly rendering trusted; entry points listed in the evidence samples only.'),
 })
 
+CHECKS.update({
+    'C15': ('model_checking', 'symbolic execution of the RNG scoping code on a symbolic generator-state model + SMT',
+            'Every path of the real set_random_state/random_state/validate_random_state and of each sampler wrapper (scipy-backed, KDE, selecting wrapper, bivariate, Gaussian multivariate incl. conditional, vine, dataset generators) for <=3 calls over <=2 models: global state restored (also on raise), stream advance, twin equality, non-interference, unseeded behaviour, seed types.',
+            'RNG model (state token, injective next-state, stream rank) is the trusted base; MT19937 bit-level behaviour outside the claim.'),
+    'C16': ('model_checking', 'exhaustive symbolic path enumeration over tau order types + graph predicates + SMT',
+            'Every feasible path (every order type of the pairwise taus, ties included) of the real vine construction for d<=4 (5 thorough), three vine types, all truncations: tree counts, spanning trees, proximity, conditioned/conditioning sets, no repeated pair, star/path shape, maximum-spanning-tree optimality of the first regular tree (z3 query per path), no exception.',
+            'select_copula / kendalltau / h-functions are stubs; d=6,7 not enumerated.'),
+    'C17': ('model_checking', 'symbolic execution with labelled stub pair copulas; textbook h-recursion as oracle',
+            'All structures for d<=4: each edge copula = select_copula of F(a|D),F(b|D); attached pseudo-observations = [F(a|D+b), F(b|D+a)], moved strictly inside (0,1); get_likelihood = sum of log pair densities at the h-propagated arguments with no uninitialised reads; sample schema and per-column quantile wiring.',
+            'Pair-copula numerics are C06-C08; the two-column distributional clause is statistical and not claimed.'),
+})
+
 NOT_APPLICABLE = {}
 
 
